@@ -32,7 +32,7 @@ _FINDINGS_VARIANT = _findings_variant(['apply_stack_effects', 'spec:handler_dept
 
 PROPS['C06'] = dict(
   level='proof',
-  verus=[dict(unit='peephole', min_functions=4), dict(unit='bytecode', min_functions=10), dict(unit='ops', min_functions=30), dict(unit='iterops', min_functions=2), dict(unit='mapops', min_functions=1), dict(unit='retops', min_functions=1), dict(unit='launchops', min_functions=1), dict(unit='compilerd', min_functions=2), dict(unit='funcc', min_functions=1), dict(unit='narrowc', min_functions=4), dict(unit='limitsc', min_functions=3), dict(unit='pipeline', min_functions=1), _FINDINGS_VARIANT, dict(unit='scopec', min_functions=8)],
+  verus=[dict(unit='peephole', min_functions=4), dict(unit='bytecode', min_functions=10), dict(unit='ops', min_functions=30), dict(unit='iterops', min_functions=2), dict(unit='mapops', min_functions=1), dict(unit='retops', min_functions=1), dict(unit='launchops', min_functions=1), dict(unit='compilerd', min_functions=2), dict(unit='funcc', min_functions=1), dict(unit='narrowc', min_functions=4), dict(unit='limitsc', min_functions=3), dict(unit='pipeline', min_functions=1), _FINDINGS_VARIANT, dict(unit='scopec', min_functions=6)],
   not_decided=['O-06.9 constants/locals/captures/cache indices in range: carried by Compiler methods outside reach',
                'A-shape: labels unique and dense, jump direction (compiler output shape) — assumed BY NAME at the composition point of peephole_compile (pipeline unit), not scattered over callers',
                'A-fiber: push_frame/ensure_stack reserve max_slots above the arguments (raw-pointer code, unverified)',
